@@ -141,3 +141,29 @@ def pair_contracts():
     for k in ('mj_assignMargin', 'getMargin', 'getGap'):
         c[k] = prims.MARGIN_CONTRACTS[k]
     return c
+
+
+# contactcompare: the comparator that fixes the contact order (contactSort).  O1/O2 = the two object ids of a contact (geom, else flex element,
+# else flex vertex); for two geom-geom contacts the pair is first put back in the order "lower geom type first was swapped" (A, B).
+CMP_DEFS = {
+    'O': 'lambda c, s: (c.geom[s] if c.geom[s] >= 0 else (c.elem[s] if c.elem[s] >= 0 else c.vert[s]))',
+    'GG': 'c1.geom[0] >= 0 and c1.geom[1] >= 0 and c2.geom[0] >= 0 and c2.geom[1] >= 0',
+    'SW': 'lambda c: context.geom_type[O(c, 0)] > context.geom_type[O(c, 1)]',
+    'A': 'lambda c: (O(c, 1) if (GG and SW(c)) else O(c, 0))',
+    'B': 'lambda c: (O(c, 0) if (GG and SW(c)) else O(c, 1))',
+    'LEX': 'lambda a1, b1, a2, b2: (-1 if a1 < a2 else (1 if a1 > a2 else (-1 if b1 < b2 else (1 if b1 > b2 else 0))))',
+}
+CONTACT_COMPARE = {
+    'ghost_params': {'NG': 'int'},
+    'params': {'c1': {'n': 1}, 'c2': {'n': 1}, 'context': {'n': 1, 'ct': 'mjModel', 'ptrfields': {'geom_type': {'len': 'NG'}}}},
+    'defs': CMP_DEFS,
+    'requires': {'geom_ids_in_range': 'NG >= 0 and NG < 2**30 and implies(GG, 0 <= c1.geom[0] and c1.geom[0] < NG and 0 <= c1.geom[1] and c1.geom[1] < NG and '
+                                      '0 <= c2.geom[0] and c2.geom[0] < NG and 0 <= c2.geom[1] and c2.geom[1] < NG)'},
+    'assigns': [],
+    'ensures': {
+        'lexicographic_order_on_the_object_pair': 'result == LEX(A(c1), B(c1), A(c2), B(c2))',
+        'equal_only_for_the_same_pair': '(result == 0) == (A(c1) == A(c2) and B(c1) == B(c2))',
+    },
+    'no_error': True,
+}
+# antisymmetry as a client lemma over the contract alone: LEX(p, q) == -LEX(q, p)
